@@ -6,20 +6,21 @@
   is reclaimed only when no pending fork protects it, recursion, and filter arguments passed
   as closures `(pc, scope index)` that are looked up through the lexical `outerindex` chain.
 
-  Fragment (`Q`): `.`  constants  `a | b`  `a , b`  `.[]`  `empty`  `[q]`  and, over a
-  program `def f₀(g): …; def f₁(g): …; main` of one-filter-parameter functions: the parameter
-  `g` and calls `fᵢ(a)` (any recursion).
+  Fragment (`Q`): `.`  constants  `a | b`  `a , b`  `.[]`  `empty`  `[q]`  `error`  `try b`
+  `try b catch h`  and, over a program `def f₀(g): …; def f₁(g): …; main` of one-filter-parameter
+  functions: the parameter `g` and calls `fᵢ(a)` (any recursion).
 
     * `eval`     — fuel-indexed reference semantics (what Spec.eval says on this fragment; running
                    out of fuel is the absorbing outcome `diverge`)
     * `compile`  — emits, instruction for instruction, what compiler.go emits for these forms with
                    every optimisation switched off (compileQuery / compileComma / compileArray /
-                   compileFuncDef / compileFunc / compileCallInternal); `compileProg` lays out the
+                   compileTry / compileFuncDef / compileFunc / compileCallInternal); `compileProg` lays out the
                    whole program as `Compile` does.  Registers `[scope id, i]` are named by the pc
                    of the scope's `opscope` and the pc offset of the allocating instruction; the
                    correspondence stream `mini` compares modulo that renaming.
-    * `step`     — one iteration of the `loop:` of `(*env).Next` (execute.go) for the 15 opcodes
-                   the fragment needs, with the `backtrack` and `err` locals, `pushfork` /
+    * `step`     — one iteration of the `loop:` of `(*env).Next` (execute.go) for the 17 opcodes
+                   the fragment needs (+ the native `error`), with the `backtrack` and `err` locals
+                   (`err` possibly wrapped in `tryEndError`s: `VErr`), `pushfork` /
                    `popfork` (the `Cfg.fail` state), `callpc` / `index` locals (`CP`), `opscope`'s
                    `outerindex` computation, `popscope`'s conditional reclaiming of `offset`.
                    A Go panic (failed type assertion, `env.index` not finding the scope, pop of
@@ -41,11 +42,23 @@ open Gojq
 abbrev V := JV
 abbrev Name := Nat
 
+/-- the text of `iteratorError{v}.Error()` as a jq value (what `catch` receives): a parameter of
+    the whole development — the theorems hold for every such function, the driver plugs in the
+    message model of Model/Native/Base.lean -/
+class IterMsg where
+  msg : V → V
+
 /-! ## the fragment and its reference semantics -/
 
 inductive Q where
   | id | const (c : V) | pipe (a b : Q) | comma (a b : Q) | iter | empty | arr (q : Q)
   | param | call1 (f : Name) (a : Q)
+  /-- `error`: raise the input as an error value -/
+  | error
+  /-- `try b` -/
+  | try_ (b : Q)
+  /-- `try b catch h` -/
+  | tryCatch (b h : Q)
   deriving Inhabited
 
 inductive Err where
@@ -53,6 +66,15 @@ inductive Err where
   | notIter (v : V)
   /-- use of the parameter outside any function (a compile error in jq; reference semantics only) -/
   | noParam
+  /-- `error` on input `v` (a `ValueError`) -/
+  | user (v : V)
+
+/-- what `catch` receives: the error value of `error`, the message text otherwise
+    (`opforktrybegin`: `ValueError` → `e.Value()`, else `err.Error()`) -/
+def Err.toV [IterMsg] : Err → V
+  | .notIter v => IterMsg.msg v
+  | .noParam => .null
+  | .user v => v
 
 inductive Stop where
   | done | err (e : Err) | diverge
@@ -88,7 +110,7 @@ inductive Clo where
 
 /-- fuel decreases at every constructor; `g` = the function whose body (or whose argument
     expression) is being evaluated (`none`: the main query), `ρ` = what its parameter is bound to -/
-def eval (defs : Name → Q) : Nat → Option Name → Clo → Q → V → Res
+def eval [IterMsg] (defs : Name → Q) : Nat → Option Name → Clo → Q → V → Res
   | 0, _, _, _, _ => ⟨[], .diverge⟩
   | _+1, _, _, .id, v => ⟨[v], .done⟩
   | _+1, _, _, .const c, _ => ⟨[c], .done⟩
@@ -115,6 +137,17 @@ def eval (defs : Name → Q) : Nat → Option Name → Clo → Q → V → Res
     | .mk h q ρ' => eval defs n h ρ' q v
     | .none => ⟨[], .err .noParam⟩
   | n+1, g, ρ, .call1 f a, v => eval defs n (some f) (.mk g a ρ) (defs f) v
+  | _+1, _, _, .error, v => ⟨[], .err (.user v)⟩
+  | n+1, g, ρ, .try_ b, v =>
+    -- a catchable error of the body ends the stream silently
+    match eval defs n g ρ b v with
+    | ⟨o, .err _⟩ => ⟨o, .done⟩
+    | r => r
+  | n+1, g, ρ, .tryCatch b h, v =>
+    -- … or runs the handler on the error value / message; errors of the handler are not caught
+    match eval defs n g ρ b v with
+    | ⟨o, .err e⟩ => let rh := eval defs n g ρ h e.toV; ⟨o ++ rh.outs, rh.stop⟩
+    | r => r
 
 /-! ## bytecode (code.go) -/
 
@@ -124,6 +157,9 @@ inductive Instr where
   | fork (t : Nat) | jump (t : Nat) | iter | backtrack
   | call (t : Nat) | scope (id n argc : Nat) | ret
   | pushpc (t : Nat) | callpc
+  | forktrybegin (t : Nat) | forktryend
+  /-- `opcall` of the native `error/0` -/
+  | callerror
 
 abbrev Code := List Instr
 
@@ -162,6 +198,16 @@ def compile (entry : Name → Nat) (g : Option Name) (e p : Nat) : Q → List In
     let ca := compile entry g (p+2) (p+3) a
     [.store e (p - e), .jump (p + 4 + ca.length), .scope (p+2) (ca.length + 1) 0] ++ ca ++
       [.ret, .pushpc (p+2), .load e (p - e), .call (entry f)]
+  | .error => [.callerror]
+  | .try_ b =>
+    -- compileTry: forktrybegin L; b; forktryend; jump END; L: backtrack; END:
+    let cb := compile entry g e (p+1) b
+    [.forktrybegin (p + 1 + cb.length + 2)] ++ cb ++ [.forktryend, .jump (p + 1 + cb.length + 3), .backtrack]
+  | .tryCatch b h =>
+    -- … L: h; END:
+    let cb := compile entry g e (p+1) b
+    let ch := compile entry g e (p + 1 + cb.length + 2) h
+    [.forktrybegin (p + 1 + cb.length + 2)] ++ cb ++ [.forktryend, .jump (p + 1 + cb.length + 2 + ch.length)] ++ ch
 
 /-- length of the code of a query (independent of where it is placed) -/
 def Q.size : Q → Nat
@@ -174,6 +220,9 @@ def Q.size : Q → Nat
   | .arr q => q.size + 7
   | .param => 2
   | .call1 _ a => a.size + 7
+  | .error => 1
+  | .try_ b => b.size + 4
+  | .tryCatch b h => b.size + h.size + 3
 
 /-- a program: `def f₀(g): defs[0]; def f₁(g): defs[1]; …; main` -/
 structure Prog where
@@ -188,6 +237,8 @@ def Q.Closed (nf : Nat) : Q → Prop
   | .comma a b => a.Closed nf ∧ b.Closed nf
   | .arr q => q.Closed nf
   | .call1 f a => f < nf ∧ a.Closed nf
+  | .try_ b => b.Closed nf
+  | .tryCatch b h => b.Closed nf ∧ h.Closed nf
   | _ => True
 
 /-- the query uses the parameter of the enclosing function -/
@@ -197,6 +248,8 @@ def Q.HasParam : Q → Prop
   | .comma a b => a.HasParam ∨ b.HasParam
   | .arr q => q.HasParam
   | .call1 _ a => a.HasParam
+  | .try_ b => b.HasParam
+  | .tryCatch b h => b.HasParam ∨ h.HasParam
   | _ => False
 
 /-- well-scoped programs (what the jq compiler accepts): calls go to defined functions and the
@@ -254,6 +307,12 @@ structure Fork where
   frames : List Frame
   off : Nat
 
+/-- the `err` local of `Next`: an error, possibly wrapped in `tryEndError`s (an error raised by
+    the continuation of a `try` body's output, which that `try` must not catch) -/
+inductive VErr where
+  | plain (e : Err)
+  | tryEnd (e : VErr)
+
 /-- the `callpc` and `index` locals of `Next` (`index = -1` is `none`) -/
 abbrev CP := Nat × Option Nat
 instance : OfNat CP 0 := ⟨(0, none)⟩
@@ -265,9 +324,9 @@ def Regs.set (R : Regs) (r : Nat) (x : SV) : Regs := fun i => if i = r then x el
 /-- `run`: at the top of the loop with `pc`, the `backtrack` and `err` locals;
     `fail`: after `break loop`, before `popfork` -/
 inductive Cfg where
-  | run (pc : Nat) (stack : List SV) (forks : List Fork) (bt : Bool) (err : Option Err) (regs : Regs)
+  | run (pc : Nat) (stack : List SV) (forks : List Fork) (bt : Bool) (err : Option VErr) (regs : Regs)
         (frames : List Frame) (off : Nat) (cp : CP)
-  | fail (forks : List Fork) (err : Option Err) (regs : Regs)
+  | fail (forks : List Fork) (err : Option VErr) (regs : Regs)
 
 @[simp] def Cfg.regs : Cfg → Regs
   | .run _ _ _ _ _ R _ _ _ => R
@@ -294,7 +353,7 @@ def frameAt (fr : List Frame) (d : Nat) : Option Frame :=
 /-- depth of the top frame (`env.scopes.index`) -/
 def topDepth (fr : List Frame) : Option Nat := if fr.isEmpty then none else some (fr.length - 1)
 
-def step (code : Code) : Cfg → Option Cfg
+def step [IterMsg] (code : Code) : Cfg → Option Cfg
   | .fail [] _ _ => none
   | .fail (f :: fs) e R => some (.run f.pc f.stack fs true e R f.frames f.off 0)   -- popfork
   | .run pc st fs bt e R fr off cp =>
@@ -360,6 +419,24 @@ def step (code : Code) : Cfg → Option Cfg
       | [_] => none                          -- `scopes.empty()`: Next returns the top of the stack
       | f :: g :: fr' =>
         some (.run (f.ret + 1) st fs false e R (g :: fr') (if fs.length = f.nf then f.base else off) cp)
+    | some (.forktrybegin t) =>
+      if bt then
+        match e with
+        | none => some (.fail fs e R)
+        | some (.tryEnd x) => some (.fail fs (some x) R)       -- not ours: unwrap and pass on
+        | some (.plain er) =>
+          match st with
+          | _ :: s => some (.run t (.v er.toV :: s) fs false none R fr off cp)
+          | [] => none
+      else some (.run (pc+1) st (⟨pc, st, fr, off⟩ :: fs) bt e R fr off cp)
+    | some .forktryend =>
+      if bt then some (.fail fs (e.map .tryEnd) R)
+      else some (.run (pc+1) st (⟨pc, st, fr, off⟩ :: fs) bt e R fr off cp)
+    | some .callerror =>
+      if bt then some (.fail fs e R) else
+      match st with
+      | .v x :: _ => some (.fail fs (some (.plain (.user x))) R)
+      | _ => none
     | some .iter =>
       if e.isSome then some (.fail fs e R) else
       match st with
@@ -369,7 +446,7 @@ def step (code : Code) : Cfg → Option Cfg
       | .rest [] :: _ => none
       | .v x :: s =>
         match iterItems x with
-        | none => some (.fail fs (some (.notIter x)) R)
+        | none => some (.fail fs (some (.plain (.notIter x))) R)
         | some [] => some (.fail fs e R)
         | some (y :: ys) =>
           if ys.isEmpty then some (.run (pc+1) (.v y :: s) fs false e R fr off cp)
@@ -386,13 +463,13 @@ def emits (code : Code) : Cfg → Option (V × Cfg)
 
 inductive Outcome where
   /-- exhausted: the outputs, then the uncaught error if any -/
-  | finished (outs : List V) (err : Option Err)
+  | finished (outs : List V) (err : Option VErr)
   | outOfFuel (outs : List V)
   /-- a Go panic -/
   | stuck (outs : List V)
 
 /-- run to exhaustion: the values successive `Next()` calls return -/
-def exec (code : Code) : Nat → Cfg → List V → Outcome
+def exec [IterMsg] (code : Code) : Nat → Cfg → List V → Outcome
   | 0, _, acc => .outOfFuel acc.reverse
   | n+1, c, acc =>
     match step code c with
@@ -409,7 +486,7 @@ def exec (code : Code) : Nat → Cfg → List V → Outcome
 def initCfg (code : Code) (v : V) : Cfg :=
   .run 0 [.v v] [] false none (fun _ => .v .null) [] 0 (code.length - 1, none)
 
-def runProg (p : Prog) (fuel : Nat) (v : V) : Outcome :=
+def runProg [IterMsg] (p : Prog) (fuel : Nat) (v : V) : Outcome :=
   exec (compileProg p) fuel (initCfg (compileProg p) v) []
 
 end Gojq.MiniVM
